@@ -340,6 +340,24 @@ def cmp_parts(n):
     return None
 
 
+_FLIP = {"<": ">", ">": "<", "<=": ">=", ">=": "<=", "==": "==", "!=": "!="}
+
+
+def cmp_oriented(n, right_is):
+    """(op, lhs, rhs) of a comparison, oriented so that right_is(rhs) holds (operands swapped and the operator mirrored when
+    only the left operand satisfies it); None if n is no comparison or neither side qualifies.  `a < b` and `b > a` are the
+    same test: rules must not depend on which way round the source spells it."""
+    cp = cmp_parts(n) if n is not None else None
+    if not cp:
+        return None
+    op, l, r = cp
+    if right_is(r):
+        return op, l, r
+    if right_is(l):
+        return _FLIP[op], r, l
+    return None
+
+
 def field_default(fb, record_suffix, field):
     """constant value of the in-class initialiser of record.field (None if absent / not constant)"""
     for recs in fb.records.values():
